@@ -12,6 +12,9 @@ ALLOWED_AXIOMS = {"propext", "Classical.choice", "Quot.sound"}
 FORBIDDEN = [r"\bsorry\b", r"\badmit\b", r"^\s*axiom\s", r"\bnative_decide\b", r"\bbv_decide\b",
              r"\bimplemented_by\b", r"\bunsafe\s", r"maxHeartbeats\s+0"]
 EVIDENCE_DIR = os.path.join(lvlib.VERIF, "evidence")
+if os.environ.get("LV_DEV_SKIP_PROOFS") == "1":
+    # development runs (proof audit skipped) must never overwrite the evidence of the registered commands
+    EVIDENCE_DIR = os.path.join(lvlib.BUILD, "evidence-dev")
 REPLAY_DIR = os.path.join(lvlib.VERIF, "replays")
 KNOWN_FILE = os.path.join(lvlib.VERIF, "known_findings.txt")
 
@@ -101,6 +104,7 @@ class Ctx:
                                                  ("DEADLOCK3", "Deadlock3", {"C05", "C20"}),
                                                  ("ORACLE_RC11", "OracleRC11", {"C02", "C03", "C04", "C16"}),
                                                  ("VCSOUND", "VCSound", {"C04"}),
+                                                 ("RACEDECL", "RaceDecl", {"C04"}),
                                                  ("REFINE5", "Refine5", {"C17"}))
                   if pid in users]
         table = json.load(open(os.path.join(lvlib.VERIF, "checks", "theorems.json")))
